@@ -83,7 +83,10 @@ func (e *ContainerEdits) Apply(spec *oci.Spec) error {
 	}
 
 	for _, d := range e.DeviceNodes {
-		dn := DeviceNode{d}
+		// fill in missing host information on a copy: d is shared with
+		// the cached Spec and must not be modified by an injection
+		node := *d
+		dn := DeviceNode{&node}
 
 		err := dn.fillMissingInfo()
 		if err != nil {
